@@ -7,7 +7,7 @@ import GraphrsModel.Generated.Karate
 namespace Graphrs
 
 def pPairs (l : List (Nat × Nat)) : String :=
-  if l.isEmpty then "." else joinWith ";" ((isort pairLe l).map fun p => s!"{p.1},{p.2}")
+  if l.isEmpty then "." else joinWith ";" ((msort pairLe l).map fun p => s!"{p.1},{p.2}")
 
 def storeNE (s : Store) : List (String × String) :=
   [("nodes", if s.nodesVec.isEmpty then "." else pNats (s.nodesVec.map (·.name))),
@@ -41,7 +41,7 @@ def handleComplete : P String := do
       if code != 0 then s!"unexpected-code-{code}"
       else if sortNat ns != List.range n then "nodes"
       else if es.length != wantPairs.length then "edge-count"
-      else if isort pairLe (es.map canon) != isort pairLe wantPairs then "edge-set"
+      else if msort pairLe (es.map canon) != msort pairLe wantPairs then "edge-set"
       else "1"
     pure (pFields "m." m ++ "|" ++ pFields "s." [("ok.complete", ok)])
 
@@ -65,7 +65,7 @@ def handleKarate : P String := do
     let _ ← P.next
     let (code, ns, es) ← P.implGraph
     let canon (p : Nat × Nat) : Nat × Nat := if p.1 ≤ p.2 then p else (p.2, p.1)
-    let ces := isort pairLe (es.map canon)
+    let ces := msort pairLe (es.map canon)
     let ok :=
       if code != 0 then s!"unexpected-code-{code}"
       else if sortNat ns != List.range 34 then "not-34-nodes"
@@ -104,7 +104,7 @@ def handleGnp : P String := do
       else if code != 0 then s!"unexpected-code-{code}"
       else if sortNat ns != List.range n.toNat then "nodes"
       else if es.any (fun p => p.1 == p.2) then "self-loop"
-      else if !noAdjacentDup (isort pairLe ces) then "repeated-pair"
+      else if !noAdjacentDup (msort pairLe ces) then "repeated-pair"
       else if es.any (fun p => p.1 ≥ n.toNat || p.2 ≥ n.toNat) then "endpoint-out-of-range"
       else "1"
     pure (pFields "m." m ++ "|" ++ pFields "s." [("ok.gnp", ok)])
